@@ -83,8 +83,9 @@ var ErrInjected = errors.New("verif: injected fetch failure")
 type FailDAG struct {
 	ipld.DAGService
 	mu   sync.Mutex
-	fail map[cid.Cid]bool
-	Gets int
+	fail     map[cid.Cid]bool
+	Gets     int
+	injected int
 }
 
 // Arm makes Get fail for the given CIDs until Disarm.
@@ -108,7 +109,11 @@ func (f *FailDAG) failing(c cid.Cid) bool {
 	f.mu.Lock()
 	defer f.mu.Unlock()
 	f.Gets++
-	return f.fail[c]
+	if f.fail[c] {
+		f.injected++
+		return true
+	}
+	return false
 }
 
 func (f *FailDAG) Get(ctx context.Context, c cid.Cid) (ipld.Node, error) {
@@ -460,4 +465,31 @@ func (c *Ctx) WriteCoq(w Write) (term string, newID int, err error) {
 		return fmt.Sprintf("(WAddIdx %s %d %d)", which, k, id), 0, nil
 	}
 	return "", 0, fmt.Errorf("write outside /pins: %q", w.Key)
+}
+
+// Injected reports how many injected failures have been delivered so far.
+func (f *FailDAG) Injected() int {
+	f.mu.Lock()
+	defer f.mu.Unlock()
+	return f.injected
+}
+
+// BuildFixed makes n nodes with the given child lists (children must have smaller indices).
+func BuildFixed(n int, children func(i int) []int) *DAG {
+	d := &DAG{Index: map[cid.Cid]int{}}
+	for i := 0; i < n; i++ {
+		nd := mdag.NodeWithData([]byte(fmt.Sprintf("verif-fixed-%d", i)))
+		ls := append([]int(nil), children(i)...)
+		sort.Ints(ls)
+		for _, ch := range ls {
+			if err := nd.AddNodeLink(fmt.Sprintf("l%d", ch), d.Nodes[ch]); err != nil {
+				panic(err)
+			}
+		}
+		d.Nodes = append(d.Nodes, nd)
+		d.Cids = append(d.Cids, nd.Cid())
+		d.Links = append(d.Links, ls)
+		d.Index[nd.Cid()] = i
+	}
+	return d
 }
